@@ -160,10 +160,43 @@ theorem repairProps_frameS {R} (hR : StoreRelS R) (f c : Nat) : ∀ (ps : List P
         exact ⟨h1.trans this.1, StoresRel.transS hR h2 this.2⟩
       · exact ⟨h1, h2⟩
 
+theorem batchProps_frameS {R} (hR : StoreRelS R) (f c : Nat) : ∀ (ps : List PRec) (s : Sys),
+    SameOwners s (batchProps s f c ps).1 ∧ StoresRel R s (batchProps s f c ps).1 := by
+  intro ps
+  induction ps with
+  | nil => intro s; exact ⟨SameOwners.refl _, StoresRel.reflS hR _⟩
+  | cons p ps ih =>
+    intro s
+    simp only [batchProps]
+    have h1 := SameOwners.setStore s f ((s.storeOf f).sync p.m p.contents (min c p.m.last)).1
+    have h2 := StoresRel.setStoreS hR s f _ (hR.sync (s.storeOf f) p.m p.contents (min c p.m.last))
+    generalize (s.storeOf f).sync p.m p.contents (min c p.m.last) = r at h1 h2 ⊢
+    obtain ⟨st, out⟩ := r
+    simp only at h1 h2 ⊢
+    have := ih (s.setStore f st)
+    exact ⟨h1.trans this.1, StoresRel.transS hR h2 this.2⟩
+
+theorem batchFollower_frameS {R} (hR : StoreRelS R) (s : Sys) (l f nf : Nat) :
+    SameOwners s (batchFollower s l f nf).1 ∧ StoresRel R s (batchFollower s l f nf).1 := by
+  have triv : SameOwners s s ∧ StoresRel R s s := ⟨SameOwners.refl _, StoresRel.reflS hR _⟩
+  unfold batchFollower
+  split
+  · exact triv
+  · cases hl : (s.storeOf l).load with
+    | error e => exact triv
+    | ok state =>
+      dsimp only
+      split
+      · exact triv
+      · exact batchProps_frameS hR f state.committed _ s
+
 theorem repairFollower_frameS {R} (hR : StoreRelS R) (s : Sys) (l f nf : Nat) :
     SameOwners s (repairFollower s l f nf).1 ∧ StoresRel R s (repairFollower s l f nf).1 := by
   have triv : SameOwners s s ∧ StoresRel R s s := ⟨SameOwners.refl _, StoresRel.reflS hR _⟩
   unfold repairFollower
+  split
+  · exact batchFollower_frameS hR s l f (nf - 1000)
+  rename_i hnb
   split
   · exact triv
   · cases hl : (s.storeOf l).load with
